@@ -90,4 +90,34 @@ def step (s : Sess) : Step → Sess
 
 def run (s : Sess) (sched : List Step) : Sess := sched.foldl step s
 
+/-! ### Part 3: a frame write blocked in the transport (`net/conn.go`)
+
+The peer has stopped reading, so `c.connection.Write` blocks while `WriteWithContext` holds the write lock.  What can end
+it: the socket being closed (by `Close`, by the reader after a peer close / a malformed frame), or a write deadline
+armed from the request context.  `closeLocks` / `armsDeadline` are the facts read from the source. -/
+
+structure WState where
+  writerBlocked : Bool := true     -- a goroutine is inside connection.Write, holding the write lock
+  socketClosed : Bool := false
+  ctxDone : Bool := false          -- the blocked request's context has ended
+  closeReturned : Bool := false    -- some Close() call has returned
+  deriving Repr, DecidableEq
+
+inductive WEv
+  | callClose        -- a goroutine runs Close() as far as it can
+  | sched            -- the runtime runs the blocked writer as far as it can
+  | ctxEnds          -- the request's context is cancelled / its deadline passes
+  deriving Repr, DecidableEq
+
+def wstep (closeLocks armsDeadline : Bool) (s : WState) : WEv → WState
+  | .callClose =>
+    if closeLocks && s.writerBlocked then s        -- waits for the lock the blocked writer holds
+    else { s with socketClosed := true, closeReturned := true }
+  | .sched =>
+    if s.socketClosed || (armsDeadline && s.ctxDone) then { s with writerBlocked := false } else s
+  | .ctxEnds => { s with ctxDone := true }
+
+def wrun (closeLocks armsDeadline : Bool) (s : WState) (evs : List WEv) : WState :=
+  evs.foldl (wstep closeLocks armsDeadline) s
+
 end CoapVerif.Model.Lifecycle
